@@ -39,10 +39,10 @@ if kind == 'c11':
     if N and N < len(cases): cases = rnd.sample(cases, N)
     for q, d in cases: emit(q, d)
 elif kind == 'c04':
-    U = [None, True, False, 0, 1, -1, 2, 1.0, 0.5, -0.5, 2.0**-60, 100, 100.0, '', 'a', 'b', 'ab', 'A', 'é', '𝄞', '￿', '1',
+    U = [None, True, False, 0, 1, -1, 2, 1.0, 0.5, -0.5, 2.0**-60, 100, 100.0, 1e19, 9.5e18, -1e19, 9007199254740992, 4503599627370497, '', 'a', 'b', 'ab', 'A', 'é', '𝄞', '￿', '1',
          [], [1], [1.0], [1, 2], [[1]], [[1.0]], {}, {"a": 1}, {"a": 1.0}, {"a": 1, "b": 2}, {"b": 2, "a": 1}, {"a": [1]}, {"a": [1.0]}]
     OPS = ['==', '!=', '<', '<=', '>', '>=']
-    LITS = ['null', 'true', 'false', '0', '1', '-1', '2', '1.0', '0.5', '-0.5', '1e2', '100', '100.0', "''", "'a'", '"a"', "'b'", "'ab'", "'A'", "'é'", "'1'"]
+    LITS = ['null', 'true', 'false', '0', '1', '-1', '2', '1.0', '0.5', '-0.5', '1e2', '100', '100.0', '1e19', '-1e19', '9.5e18', '1.0e19', '9007199254740992.0', "''", "'a'", '"a"', "'b'", "'ab'", "'A'", "'é'", "'1'"]
     cases = []
     for x in U:
         for y in U:
